@@ -148,11 +148,11 @@ func (o Outcome) String() string {
 type ItemKind uint8
 
 const (
-	ItInt ItemKind = iota // Width bytes big-endian = Val
-	ItBytes               // Data
-	ItLP                  // Width-byte length prefix, Kids
-	ItASN1                // Tag, Kids
-	ItRaw                 // Data: leftover of a partially unwritten item
+	ItInt   ItemKind = iota // Width bytes big-endian = Val
+	ItBytes                 // Data
+	ItLP                    // Width-byte length prefix, Kids
+	ItASN1                  // Tag, Kids
+	ItRaw                   // Data: leftover of a partially unwritten item
 )
 
 // Item is one step of the mirrored read program.
@@ -176,11 +176,11 @@ const (
 // Result is the model's prediction for one program on a growing (non-fixed) builder.
 type Result struct {
 	Outcome Outcome
-	Out     []byte // OutBytes: expected output (Initial || encoding)
-	Items   []Item // OutBytes: mirrored reads of the encoding
+	Out     []byte       // OutBytes: expected output (initial || encoding)
+	Items   []Item       // OutBytes: mirrored reads of the whole output
 	Errs    map[int]bool // OutError: ids of every error that was raised; the returned error is one of them
-	PanicID int    // OutPanic: ID of the panicking op
-	Peak    int    // largest total buffer length reached at any moment (incl. Initial)
+	PanicID int          // OutPanic: ID of the panicking op
+	Peak    int          // largest total buffer length reached at any moment (incl. Initial)
 	Events  []Event
 	Ops     int // operations applied
 }
@@ -336,6 +336,9 @@ func (m *machine) child(op *Op, lv *level, depth int) {
 						panic(r)
 					}
 					m.raise(lv, be.id)
+					// the children that were pending are finished now; a length
+					// overflow found there may be reported instead
+					m.errs[ErrOverflow] = true
 				}
 			}()
 			m.run(op.Kids, ch, depth+1)
@@ -396,9 +399,14 @@ func (m *machine) unwrite(lv *level, n int) {
 }
 
 // Run evaluates prog on a growing builder whose buffer initially holds initial.
+// The initial bytes count as content of the root builder (Unwrite may remove them).
 func Run(prog []*Op, vals *Values, initial []byte) (res Result) {
 	m := &machine{vals: vals, errs: map[int]bool{}, total: len(initial), peak: len(initial)}
 	m.root = &level{}
+	if len(initial) > 0 {
+		m.root.content = append([]byte(nil), initial...)
+		m.root.items = []Item{{Kind: ItRaw, Data: m.root.content[:len(initial):len(initial)], start: 0, end: len(initial)}}
+	}
 	defer func() {
 		res.Peak, res.Events, res.Ops = m.peak, m.events, m.ops
 		if r := recover(); r != nil {
@@ -418,8 +426,7 @@ func Run(prog []*Op, vals *Values, initial []byte) (res Result) {
 	if m.root.err {
 		return Result{Outcome: OutError, Errs: m.errs}
 	}
-	out := append(append([]byte(nil), initial...), m.root.content...)
-	return Result{Outcome: OutBytes, Out: out, Items: m.root.items}
+	return Result{Outcome: OutBytes, Out: m.root.content, Items: m.root.items}
 }
 
 // FixedPrediction tells what a fixed-size builder with the given capacity must do
